@@ -23,10 +23,14 @@ NOTES = {
     "C18/5": "caught by C15's R15.1 (the Result of finish() is dropped), to which C18 delegates error propagation",
     "C20/2": "same change as C04/3 (unescaped `.`): a C04 language obligation, caught by C04",
     "C20/5": "a quoted_string defect seeded through C20: caught by C03's R3.1c",
+    "C04/7": "NOT detected (round 3, reverse of b99fdd2): correctness of the cycle walk of build_labelled is a graph-algorithm property no structural rule of mine reaches (C04 ND)",
+    "C04/8": "round 3, reverse of 5b87013: the missing nesting bound is seen from C16's side (the depth guard of the Prettifier cycle is lost)",
+    "C07/9": "round 3, reverse of 49a072a: the root cause is in the default Term::cmp, caught by C02's R2.4c",
+    "C14/7": "round 3, reverse of e69d9a5: the panic site is in the value module, caught by C13's R13.17 (library panic audit)",
 }
 rows = []
 n_det = n_own = n_neutral = n_miss = 0
-for d in sorted(glob.glob(os.path.join(V, "seeded", "C*", "[0-9]"))):
+for d in sorted(glob.glob(os.path.join(V, "seeded", "C*", "[0-9]*"))):
     pid, k = d.split("/")[-2:]
     tag = "%s/%s" % (pid, k)
     meta = json.load(open(os.path.join(d, "meta.json")))
@@ -56,9 +60,12 @@ for d in sorted(glob.glob(os.path.join(V, "seeded", "C*", "[0-9]"))):
                                                    verdict, key, NOTES.get(tag, "")))
 sec11 = """## 11. Seeded changes and the checks that catch them
 
-%d changes, each written by a fresh sub-agent from the property text alone, each compiling, passing the
-repository's suite, and breaking the property with a demonstration that I re-ran (`meta.json` of every seed:
-what it needs to manifest, what the agent ran, my own confirmation run, the detection result).  "tree" is the
+%d changes, each compiling, passing the repository's suite, and breaking the property with a demonstration that I
+re-ran (`meta.json` of every seed: what it needs to manifest, what was run, my own confirmation run, the detection
+result).  Rounds 1 and 2 (113 changes) were each written by a fresh sub-agent from the property text alone.  Round 3
+(`"round": 3`, 26 changes, `tools/make_reverse_seeds.py`) is of another kind: the reverse of each `fix:` commit of the
+hunt round applied to the final HEAD — it re-introduces a *real* defect of the repository, with the hunter's failing
+demonstration (the one repair whose reverse conflicts with a later repair, 208706c, has no seed).  "tree" is the
 tree the patch was applied to for the detection run: `head` = the repaired `/repo` HEAD, `pinned` = the pinned
 commit (for patches that only apply there); `*` = the change was re-based by hand onto the repaired tree
 (`patch.head.diff`) because a `fix:` commit touched the same lines, and re-confirmed there
